@@ -140,7 +140,7 @@ def check(run):
     _r3(run, prog)
     _r4(run, prog)
     from ..cachekey import check_caches
-    check_caches(run, [m for k, m in prog.modules.items() if k.startswith('cherab.core.math') and not k.endswith('#pxd')], 'C13-K', prog=prog)
+    check_caches(run, [m for k, m in prog.modules.items() if k.startswith('cherab.core.math') and not k.endswith('#pxd')], 'C13-K', prog=prog, zero_is_a_value=True)
 
 
 # ------------------------------------------------------------------------------------------ R4
